@@ -132,7 +132,20 @@ def handle : Handler := fun op inp impl => do
   let orig ← origOfJson inp
   let baseTags := [s!"kind:{if kind = .deployment then "deployment" else "cloneSet"}", s!"op:{opName cop}",
     if f.write.isSome then "fault:write" else if f.get then "fault:get" else if f.listV2 || f.listV1 then "fault:list" else "fault:none",
-    if orig.isSome then "walk" else "single"] ++ RV.Oracle.CtlBlueGreen.guardTags kind cop w br f orig
+    if orig.isSome then "walk" else "single"] ++
+    (match w.wl with
+     | none => ["wl:absent", "trivial"]
+     | some wl =>
+       [match wl.saved with | .none => "saved:none" | .bad => "saved:bad" | .some _ => "saved:some",
+        if wl.ctl = .none then "ctl:none" else if controlled br wl then "ctl:this" else "ctl:other"] ++
+       (if f.get then ["trivial"] else [])) ++
+    [match findHPA w noFault with
+     | .panic => "hpa:panic"
+     | .val none => "hpa:none"
+     | .val (some (_, 0)) => "hpa:enabled"
+     | .val (some _) => "hpa:disabled",
+     s!"rs:{w.rss.length}"] ++
+    RV.Oracle.CtlBlueGreen.guardTags kind cop w br f orig
   match op with
   | "step" =>
     let m := call kind cop w br f
